@@ -22,6 +22,9 @@ pub struct ColSpec {
     pub direct: bool,
     /// the key universe must not contain the empty key (cursor runs: seek_to_first = rank 0)
     pub noempty: bool,
+    /// run an index growth in this (uniform, zero salt) column before the history starts, so that
+    /// log record ids and commit ids diverge and two index generations may coexist
+    pub grow: bool,
 }
 
 impl ColSpec {
@@ -36,6 +39,7 @@ impl ColSpec {
             append_only: j["append_only"].as_bool().unwrap_or(false),
             direct: j["direct"].as_bool().unwrap_or(false),
             noempty: j["noempty"].as_bool().unwrap_or(false),
+            grow: j["grow"].as_bool().unwrap_or(false),
             kind,
         }
     }
@@ -114,7 +118,9 @@ impl Universe {
             while ks.len() < nkeys {
                 let i = ks.len() + attempt;
                 let k = if spec.uniform {
-                    let len = if (seed as usize + i) % 3 == 0 { 40 } else { 32 };
+                    // (zero salt = the instrumentation-only identity hash, which takes exactly 32 bytes)
+                    let zero_salt = cols.iter().any(|c| c.grow);
+                    let len = if (seed as usize + i) % 3 == 0 && !zero_salt { 40 } else { 32 };
                     fill(&mut rng, len, false)
                 } else if spec.is_btree() {
                     let len = if small && nkeys > 64 {
@@ -176,7 +182,7 @@ impl Universe {
 
     /// A key that no behaviour ever writes.
     pub fn never_key(&self, c: usize) -> Vec<u8> {
-        let mut k = vec![0xEEu8; if self.cols[c].uniform { 33 } else { 19 }];
+        let mut k = vec![0xEEu8; if self.cols[c].uniform { 32 } else { 19 }];
         k[0] = 0xAB;
         k
     }
@@ -276,11 +282,45 @@ pub fn options(path: &Path, cols: &[ColSpec], seed: u64, threads: bool) -> Optio
         sync_wal: true,
         sync_data: true,
         stats: seed % 2 == 0,
-        salt: None,
+        salt: if cols.iter().any(|c| c.grow) { Some([0u8; 32]) } else { None },
         compression_threshold: thr,
         with_background_thread: threads,
         always_flush: true,
     }
+}
+
+/// Index growth preamble for the columns marked `grow`: 65 keys that share one 16-bit index
+/// chunk (uniform keys, zero salt = identity hash) overflow it; `finish` runs the reindex
+/// batches to completion, otherwise the column is left with two index generations.
+pub fn grow_preamble(db: &Db, cols: &[ColSpec], finish: bool) -> Result<(), String> {
+    for (c, spec) in cols.iter().enumerate() {
+        if !spec.grow {
+            continue
+        }
+        let mut tx = Vec::new();
+        for i in 0..65u32 {
+            let mut key = vec![0u8; 32];
+            key[0] = 0xfe;
+            key[1] = 0xdc;
+            key[2] = (i as u8) << 1;
+            key[20] = 0x77;
+            let val = if spec.value_from_key() { key.clone() } else { vec![9u8; 11] };
+            tx.push((c as u8, key, Some(val)));
+        }
+        db.commit(tx).map_err(|e| format!("preamble commit: {e}"))?;
+        db.process_commits().map_err(|e| format!("preamble: {e}"))?;
+        db.flush_logs().map_err(|e| format!("preamble: {e}"))?;
+        db.enact_logs().map_err(|e| format!("preamble: {e}"))?;
+        if finish {
+            for _ in 0..4 {
+                db.process_reindex().map_err(|e| format!("preamble: {e}"))?;
+                db.flush_logs().map_err(|e| format!("preamble: {e}"))?;
+                db.enact_logs().map_err(|e| format!("preamble: {e}"))?;
+            }
+        }
+        db.clean_logs().map_err(|e| format!("preamble: {e}"))?;
+    }
+    Ok(())
 }
 
 /// Visible state of all hash/btree columns: per column, per key rank: 0 = absent,
@@ -413,6 +453,10 @@ pub fn copy_sparse(src: &Path, dst: &Path) -> std::io::Result<()> {
 /// Snapshot of a database directory = what a `kill -9` at this instant leaves on disk
 /// (MAP_SHARED stores are in the page cache, unflushed BufWriter bytes are not).
 pub fn copy_dir(src: &Path, dst: &Path) -> std::io::Result<()> {
+    crate::sys::quiet(|| copy_dir_inner(src, dst))
+}
+
+fn copy_dir_inner(src: &Path, dst: &Path) -> std::io::Result<()> {
     let _ = std::fs::remove_dir_all(dst);
     std::fs::create_dir_all(dst)?;
     for e in std::fs::read_dir(src)? {
